@@ -408,7 +408,10 @@ def timedelta_deserializer(value):
     kwargs = {key: float(val) for key, val in match.groupdict().items()}
     from datetime import timedelta
 
-    return timedelta(**kwargs)
+    try:
+        return timedelta(**kwargs)
+    except OverflowError as ex:
+        raise ValueError(f'Out of range "{value}": {ex}') from ex
 
 
 register_type_on_first_use("datetime.timedelta", deserializer=timedelta_deserializer)
